@@ -208,18 +208,44 @@ var c18Names = []string{"h", "requests", "a.b", "a-b", "x.1-2", "", "-", ".", "Ã
 
 const c18Alphabet = "%%%sdvfqxT[]*!().-+ #0123456789:|@,=\\/{}$`'\"<>&;?^~_aZ\x00\t\n\r\x7f\x80\xc3\xa9\xff"
 
+// lengths of long names: around every power of two / round size a fixed buffer, a length
+// byte or a datagram budget could have ("all names": nothing bounds the length of a name)
+var c18Lengths = []int{64, 100, 110, 120, 126, 127, 128, 129, 200, 255, 256, 257, 300, 511, 512, 513, 1000, 1024, 1500}
+
+func c18LongName(r *Rng) B {
+	n := c18Lengths[r.Intn(len(c18Lengths))]
+	if r.Chance(25) {
+		n += r.Range(-3, 3)
+	}
+	b := make([]byte, 0, n+32)
+	for len(b) < n {
+		switch r.Intn(4) {
+		case 0:
+			b = append(b, c18Names[r.Intn(len(c18Names))]...)
+		case 1:
+			b = append(b, c18Alphabet[r.Intn(len(c18Alphabet))])
+		default:
+			b = append(b, []string{"service", "component", "endpoint", "latency", "bytes", "eu-west-1", "v2", "0123456789"}[r.Intn(8)]...)
+		}
+		if r.Chance(60) {
+			b = append(b, '.')
+		}
+	}
+	return B(b[:n])
+}
+
 func c18Name(r *Rng) B {
 	switch x := r.Intn(100); {
-	case x < 55:
+	case x < 50:
 		return B(c18Names[r.Intn(len(c18Names))])
-	case x < 85:
+	case x < 78:
 		n := r.Range(1, 10)
 		b := make([]byte, n)
 		for i := range b {
 			b[i] = c18Alphabet[r.Intn(len(c18Alphabet))]
 		}
 		return B(b)
-	case x < 90:
+	case x < 83:
 		// arbitrary bytes
 		n := r.Range(1, 6)
 		b := make([]byte, n)
@@ -227,6 +253,8 @@ func c18Name(r *Rng) B {
 			b[i] = byte(r.Intn(256))
 		}
 		return B(b)
+	case x < 91:
+		return c18LongName(r)
 	}
 	return B(r.Str())
 }
